@@ -8,7 +8,7 @@
 import math, os, sys, struct
 import vlib
 
-KINDS = {"none": 1, "leapfrog": 0, "whfast": 0, "saba": 1, "eos": 1, "janus": 2, "sei": 0}
+KINDS = {"none": 1, "leapfrog": 0, "whfast": 0, "saba": 1, "eos": 1, "janus": 1, "sei": 0}
 
 
 def ulp_shift(x, k):
